@@ -2,13 +2,15 @@ SPECIFICATION TSpec
 CONSTANTS
   WSel = "g"
   Blocks = {"A", "B"}
-  MaxI = 4
+  MaxI = 6
   MaxMsgs = 1000000
   CertRound = TRUE
   Creds = {"ok", "bad"}
   Known = {}
   Replay = {}
   Skew = {"judged", "same"}
+  KSet = {"Prevote", "Precommit", "Cert"}
+  Ring = 4
   MaxLost = 1000000
   FutureJudged = FALSE
   Mode = "G"
